@@ -10,7 +10,7 @@ import lib
 
 SPEC = {
     "level": "exploration",
-    "technique": "exhaustive enumeration of (kind, width, value, spelling) with an arithmetic range predicate as oracle; accept/reject observed through marker bits of a cascading fallback rule and through single-instruction runs",
+    "technique": "exhaustive enumeration of (kind, width, value, spelling) with an arithmetic range predicate as oracle; accept/reject observed through marker bits of a cascading fallback rule and through single-instruction runs; directed families for values that settle after a larger first-pass guess and for values given by command-line defines (real binary)",
     "level_text": ("Exhaustive enumeration of a finite space: all (kind in u/s/i/#d, N, v) with N <= 16 (both tiers; quick samples deep-rejected #d cells alone, thorough runs all of them alone) "
                    "(thorough), v in [-2^N-4, 2^N+4], each in eight spellings; the oracle is the arithmetic range predicate of "
                    "the property and the emitted bits must be v mod 2^N. Widths up to 256 are sampled around each boundary."),
